@@ -36,6 +36,13 @@ fn check(s: &str, cases: &mut u64) -> Result<(), String> {
         let (oa, ob) = o.split(); let (pa, pb) = p.clone().split();
         if (oa.pos(), ob.pos()) != (pa.pos(), pb.pos()) { return Err(format!("split,{} detail=positions differ", key)); }
         if o.start_pos().pos() != p.start_pos().pos() || o.end_pos().pos() != p.end_pos().pos() { return Err(format!("start_pos,{} detail=x", key)); }
+        // the positions handed out by split / start_pos / end_pos are positions in the WHOLE input: line, column and line text as pest's
+        for (name, ours, theirs) in [("split.0", oa, pa.clone()), ("split.1", ob, pb.clone()), ("start_pos", o.start_pos(), p.start_pos()), ("end_pos", o.end_pos(), p.end_pos())] {
+            if ours.line_col() != theirs.line_col() || ours.line_of() != theirs.line_of() {
+                return Err(format!("{},{} detail=line_col/line_of of the position differ: pest_typed {:?} {:?} vs pest {:?} {:?}", name, key, ours.line_col(), ours.line_of(), theirs.line_col(), theirs.line_of()));
+            }
+            if ours != pest_typed::Position::new(s, ours.pos()).unwrap() { return Err(format!("{},{} detail=position is not equal to Position::new(input, offset)", name, key)); }
+        }
         let ol: Vec<&str> = o.lines().collect(); let pl: Vec<&str> = p.lines().collect();
         if ol != pl { return Err(format!("lines,{} detail=pest_typed {:?} vs pest {:?}", key, ol, pl)); }
         let os: Vec<(usize, usize)> = o.lines_span().map(|x| (x.start(), x.end())).collect();
@@ -54,6 +61,14 @@ fn check(s: &str, cases: &mut u64) -> Result<(), String> {
             if a == 0 { g!(..b, "..b"); g!(..=b, "..=b"); }
             if b == 0 { g!(a.., "a.."); }
             if a == 0 && b == 0 { g!(.., ".."); }
+            // explicit bound pairs reach the arms no range syntax reaches (an EXCLUDED start bound)
+            {
+                use std::ops::Bound::*;
+                g!((Excluded(a), Excluded(b)), "(Excluded,Excluded)"); g!((Excluded(a), Included(b)), "(Excluded,Included)");
+                if b == 0 { g!((Excluded(a), Unbounded), "(Excluded,Unbounded)"); }
+                g!((Included(a), Excluded(b)), "(Included,Excluded)");
+                if a == 0 { g!((Unbounded, Included(b)), "(Unbounded,Included)"); }
+            }
         } }
     }
     for (o1, p1) in &valid { for (o2, p2) in &valid {
@@ -75,5 +90,5 @@ fn nb_span() {
     for s in strings(l) {
         if let Err(e) = check(&s, &mut cases) { println!("NB-RESULT name=nb_span status=fail cases={} key={}", cases, e); return; }
     }
-    println!("NB-RESULT name=nb_span status=ok cases={} key=- detail=all strings of <= {} chars over {{LF,CR,a,é,€}}: new (all index pairs), as_str, split, lines, lines_span, get (6 range forms), merge_spans (all span pairs) equal pest's", cases, l);
+    println!("NB-RESULT name=nb_span status=ok cases={} key=- detail=all strings of <= {} chars over {{LF,CR,a,é,€}}: new (all index pairs), as_str, split, lines, lines_span, get (6 range forms + explicit bound pairs incl. excluded starts), positions from split/start_pos/end_pos (line_col, line_of), merge_spans (all span pairs) equal pest's", cases, l);
 }
